@@ -6,8 +6,9 @@
 -/
 namespace Umya.XmlEsc
 
-/-- `escape`: `< > & ' "` -/
-def escChar (c : Char) : List Char :=
+/-- quick-xml `escape`: `< > & ' "` (what the writer did before the carriage-return fix, kept for
+    the refutation theorems) -/
+def escCharOld (c : Char) : List Char :=
   if c = '<' then "&lt;".toList
   else if c = '>' then "&gt;".toList
   else if c = '&' then "&amp;".toList
@@ -15,13 +16,29 @@ def escChar (c : Char) : List Char :=
   else if c = '"' then "&quot;".toList
   else [c]
 
+def escapeOld (s : List Char) : List Char := s.flatMap escCharOld
+
+/-- text nodes (`write_text_node`): quick-xml `escape`, then `\r` ↦ `&#13;` -/
+def escChar (c : Char) : List Char :=
+  if c = '\r' then "&#13;".toList else escCharOld c
+
 def escape (s : List Char) : List Char := s.flatMap escChar
 
-/-- `partial_escape`: `< > &` -/
+/-- attribute values (`write_start_tag`): quick-xml `escape`, then tab / line feed / carriage return
+    as character references -/
+def attrEscChar (c : Char) : List Char :=
+  if c = '\t' then "&#9;".toList
+  else if c = '\n' then "&#10;".toList
+  else escChar c
+
+def attrEscape (s : List Char) : List Char := s.flatMap attrEscChar
+
+/-- `write_text_node_conversion`: quick-xml `partial_escape` (`< > &`), then `\r` ↦ `&#13;` -/
 def pescChar (c : Char) : List Char :=
   if c = '<' then "&lt;".toList
   else if c = '>' then "&gt;".toList
   else if c = '&' then "&amp;".toList
+  else if c = '\r' then "&#13;".toList
   else [c]
 
 def partialEscape (s : List Char) : List Char := s.flatMap pescChar
@@ -83,6 +100,6 @@ def unescape (s : List Char) : Option (List Char) := unescGo .out s
 def attrRead (raw : List Char) : List Char := (unescape raw).getD raw
 
 /-- what `write_start_tag` puts between the quotes of an attribute -/
-def attrWrite (s : List Char) : List Char := escape s
+def attrWrite (s : List Char) : List Char := attrEscape s
 
 end Umya.XmlEsc
